@@ -98,6 +98,13 @@ def entryOk (t : Tab) (e : Key × Rec) : Bool :=
   | none => true
   | some (v0, x0) => if e.2.1 < v0 then false else if e.2.1 = v0 then decide (x0 = e.2.2) else true
 
+/-- `staged.get(key).or_else(|| committed.get(key))`: look a key up in the batch staged so far, then in
+    the committed map -/
+def olookup {α : Type} (st t : AL α) (k : Key) : Option α :=
+  match lookup st k with
+  | some a => some a
+  | none => lookup t k
+
 def dump (t : Tab) (p : Pfx) : Tab := t.filter (fun e => p.matches e.1)
 
 /-! ## MemoryKVVStore -/
@@ -116,9 +123,26 @@ def put (t : Tab) (k : Key) (x : Val) : Tab × Res :=
   | none => (t, .panic)
   | some v => putV t k v x
 
-/-- all entries are checked against the map as it was, then all are inserted in order -/
+/-- one iteration of the check loop of `put_batch` (after the F8 fix): the entry is compared with the
+    entry staged earlier in this batch for the same key, else with the committed map; `none` = the loop
+    has returned `Err(VersionMismatch)`; a same-version entry with equal content is skipped -/
+def checkStep (t : Tab) (acc : Option Tab) (e : Key × Rec) : Option Tab :=
+  match acc with
+  | none => none
+  | some st =>
+    match olookup st t e.1 with
+    | none => some (insert st e.1 e.2)
+    | some (v0, x0) =>
+      if e.2.1 < v0 then none
+      else if e.2.1 = v0 then (if x0 = e.2.2 then some st else none)
+      else some (insert st e.1 e.2)
+
+/-- every entry is checked in order against the batch staged so far (like the same sequence of
+    `put_with_version` calls); only if all pass, all are inserted in order -/
 def batch (t : Tab) (es : List (Key × Rec)) : Tab × Res :=
-  if es.all (entryOk t) then (insertAll t es, .ok) else (t, .mismatch)
+  match es.foldl (checkStep t) (some []) with
+  | some _ => (insertAll t es, .ok)
+  | none => (t, .mismatch)
 
 def step (t : Tab) : Op → Tab × Out
   | .put k x => let (t', r) := put t k x; (t', .res r)
@@ -176,11 +200,11 @@ structure Acc where
   panicked : Bool
   deriving DecidableEq, Repr
 
-/-- one iteration; note that versions are compared with the **cache** (not updated during the
-    batch) while contents are compared with the **staged** table, and that an entry with a lower
-    version is still inserted into the (later aborted) transaction -/
+/-- one iteration (after the F8 fix): the version is compared with the version staged earlier in this
+    batch for the same key, else with the **cache**; contents are compared with the **staged** table;
+    an entry with a lower version is still inserted into the (later aborted) transaction -/
 def batchStep (cache : AL Nat) (a : Acc) (e : Key × Rec) : Acc :=
-  match lookup cache e.1 with
+  match olookup a.staged cache e.1 with
   | none => { a with tab := insert a.tab e.1 e.2, staged := insert a.staged e.1 e.2.1 }
   | some v0 =>
     if e.2.1 < v0 then
